@@ -40,8 +40,8 @@ func printNode(fset *token.FileSet, n any) string {
 	return strings.Join(strings.Fields(b.String()), " ")
 }
 
-const ty = `([A-Za-z_][A-Za-z0-9_]*(?:\[[^\]]*\])?)` // receiver type, possibly with type parameters
-const id = `([A-Za-z_][A-Za-z0-9_]*)`
+const ty = `([\pL_][\pL\p{Nd}_]*(?:\[[^\]]*\])?)` // receiver type, possibly with type parameters
+const id = `([\pL_][\pL\p{Nd}_]*)`                  // a Go identifier: letter = Unicode letter or _, digit = Unicode Nd
 
 var (
 	reObject  = regexp.MustCompile(`^func \(in (\*?)` + ty + `\) DeepCopyObject\(\) ` + id + ` \{ if c := in\.DeepCopy\(\); c != nil \{ return c \} return nil \}$`)
